@@ -152,6 +152,11 @@ class Runner:
         cached = False
         if fam.kind == F.BUNDLE and view.startswith("item:"):
             cached = loader.item_cache.contain(fam.mkid(int(view.split(":")[1])))
+            if phase == "fault" and getattr(self, "cached_before_fault", None) is not None:
+                # the reads after a fault run in two rounds; what the first round put into the item cache (possibly an
+                # outdated item served after the failed write) must not make the second round look like the
+                # item-cache defect: only what was cached BEFORE the fault counts
+                cached = cached and view in self.cached_before_fault
         try:
             got, shape = fam.read2(loader, view)
         except BaseException as e:
@@ -398,9 +403,17 @@ class Runner:
             if raised is None and not buf.getvalue().strip():
                 self.disc("fault", "silent-failed-write", "export into a %s directory neither raised nor printed anything" % mode)
         # later reads must still return the model (two rounds, so that small caches are cycled)
-        for _ in range(2):
+        self.cached_before_fault = set()
+        if fam.kind == F.BUNDLE:
             for v in fam.views(self.model):
-                self.compare(loader, v, "fault")
+                if v.startswith("item:") and loader.item_cache.contain(fam.mkid(int(v.split(":")[1]))):
+                    self.cached_before_fault.add(v)
+        try:
+            for _ in range(2):
+                for v in fam.views(self.model):
+                    self.compare(loader, v, "fault")
+        finally:
+            self.cached_before_fault = None
 
 
 def _diag_kind(text):
